@@ -24,12 +24,24 @@ pub enum Mode {
 thread_local! {
     static MODE: Cell<Mode> = Cell::new(Mode::Sequential);
     static STAGES: Cell<usize> = Cell::new(0);
+    /// the number of worker threads the program observes (`current_num_threads`): 1 for the sequential schedule,
+    /// 4 for the reversed one, an arbitrary element of {1, 2, 3, 5, 8} (picked by the decision vector) when exploring
+    static THREADS: Cell<usize> = Cell::new(1);
 }
 
 pub mod model {
     pub use super::Mode;
     pub fn set_mode(m: Mode) {
         super::MODE.with(|c| c.set(m));
+        let t = match m {
+            Mode::Sequential => 1,
+            Mode::Reversed => 4,
+            Mode::Explore => [1usize, 2, 3, 5, 8][symrt::choice(5)],
+        };
+        super::THREADS.with(|c| c.set(t));
+    }
+    pub fn threads() -> usize {
+        super::THREADS.with(|c| c.get())
     }
     pub fn mode() -> Mode {
         super::MODE.with(|c| c.get())
@@ -339,5 +351,5 @@ where
 }
 
 pub fn current_num_threads() -> usize {
-    1
+    THREADS.with(|c| c.get())
 }
